@@ -670,7 +670,7 @@ func (vm *VM) startGoroutine() bool {
 	case OpCallIndirect:
 		f := vm.general(call.A).Interface().(*callable)
 		if f.fn == nil {
-			if f.native.value.IsNil() {
+			if f.Native().value.IsNil() {
 				panic(errors.New("fatal error: go of nil func value"))
 			}
 			return true
